@@ -188,10 +188,11 @@ class ServerCfg(dict):
 
 
 class SshServer:
-    def __init__(self, cfg, world, n, addr):
+    def __init__(self, cfg, world, n, addr, k=None):
         self.cfg = cfg
         self.world = world
-        self.n = n
+        self.n = n                      # connection number in the whole run (fake network)
+        self.k = k if k is not None else n      # connection number at this server
         self.dec = wire.StreamDecoder()
         self.out_idx = 0
         self.client_kexinit = None
@@ -205,7 +206,7 @@ class SshServer:
         items = [data]
         mut = cfg.get('mutate')
         if mut is not None:
-            items = mut(self.n, kind, self.out_idx, data)
+            items = mut(self.k, kind, self.out_idx, data)
         tainted = perturbation or items != [data]
         self.out_idx += 1
         seg = cfg.get('segment')
@@ -231,7 +232,7 @@ class SshServer:
         self.sock = sock
         cfg = self.cfg
         eol = cfg.get('eol', b'\r\n')
-        if cfg.get('maxstartups_after') is not None and self.n > cfg['maxstartups_after']:
+        if cfg.get('maxstartups_after') is not None and self.k > cfg['maxstartups_after']:
             sock.push(b'Exceeded MaxStartups\r\n')
             sock.push(EOF)
             self.done = True
@@ -372,10 +373,13 @@ class SshServer:
 
 
 def server_factory(cfg):
+    count = [0]
+
     def f(world, n, addr):
-        if cfg.get('refuse_after') is not None and n > cfg['refuse_after']:
+        count[0] += 1
+        if cfg.get('refuse_after') is not None and count[0] > cfg['refuse_after']:
             return None
-        return SshServer(cfg, world, n, addr)
+        return SshServer(cfg, world, n, addr, count[0])
     return f
 
 
